@@ -226,6 +226,8 @@ def gen_ops(rng, n, tier):
         cases.append({'a': a, 'b': b, 'edit': rng.choice([None, None, 'fields', 'copy']), 'zones': rng.choice([[0, 0], [0, 0], [2, 0], [-3, 2], [1, 1]]), 'addms': rng.random() < 0.4, 'n': rng.choice([2, 5, 30, -3, -20, 0, 1, 59, 60, 3600, 86400, 86399, 31536000, -1, -86400, rng.randint(-10 ** 7, 10 ** 8)])})
         if rng.random() < 0.15:
             cases[-1]['tz'] = rng.choice(['AAA-9', 'BBB+5', 'EEE-13'])
+        if rng.random() < 0.15:
+            cases[-1]['nf'] = rng.choice([-0.5, -1.5, -0.25, 0.75, 2.25, -2.75, -0.001, 0.001, -59.5, 86399.5, -86400.25])
     return cases
 
 
@@ -253,7 +255,10 @@ def run_ops_(case):
             a = a.copy(); a0 = a0.copy()
     res = {'lt': a < b, 'gt': a > b, 'le': a <= b, 'ge': a >= b, 'eq': a == b, 'ne': a != b,
            'abs_a': a.toAbsTime(), 'sub': a - b}
-    if to_secs(case['a']) + case['n'] >= 0:
+    if case.get('nf') is not None:
+        if to_secs(case['a']) + case['nf'] >= 1:
+            res['addf'] = fields(a0.addSec(case['nf']))          # a fractional offset, of either sign: oracle only
+    elif to_secs(case['a']) + case['n'] >= 0:
         res['add'] = fields(a0.addSec(case['n']))
     return res
 
@@ -284,6 +289,16 @@ def oracle_ops(case, obs):
             return '%r %s %r is %r but the instants are %d ms and %d ms' % (case['a'], k, case['b'], obs[k], ia, ib)
     if abs(obs['abs_a'] * 1000 - ia) > 1e-3:
         return 'toAbsTime(%r) = %r, the calendar says %r' % (case['a'], obs['abs_a'], ia / 1000.0)
+    if 'addf' in obs:
+        f = obs['addf']
+        try:
+            got = to_secs(f) * 1000 + f[6]
+        except ValueError as e:
+            return 'addSec(%r, %r) = %r is not a well-formed date (%s)' % (case['a'], case['nf'], f, e)
+        a0ms = case['a'][6] if case.get('addms') else 0
+        want = to_secs(case['a']) * 1000 + a0ms + case['nf'] * 1000
+        if not (0 <= f[6] <= 999) or abs(got - want) > 1.01:
+            return 'addSec(%r, %r) = %r: %r ms since 1970, adding the offset gives %r ms' % (case['a'][:6] + [a0ms], case['nf'], f, got, want)
     if 'add' in obs:
         s = to_secs(case['a']) + case['n']
         if case.get('addms') and abs(obs['add'][6] - case['a'][6]) > 1:
